@@ -37,12 +37,33 @@ type IDCase struct {
 	Pad   []int        `json:"pad,omitempty"`
 	Quote ref.FeeQuote `json:"quote"`
 	Rel   string       `json:"rel,omitempty"`
+	// RepIn / RepOut append that many further copies of the last input (own txid, spending
+	// nothing) / of the last output, so that the count prefixes reach their 3-byte form
+	// without 253 elements being drawn and stored
+	RepIn  int `json:"rep_in,omitempty"`
+	RepOut int `json:"rep_out,omitempty"`
+}
+
+func repIn(last ref.In, j int) ref.In {
+	in := last
+	in.TxID = append(pbt.Hex{}, last.TxID...)
+	if len(in.TxID) == 32 {
+		in.TxID[0], in.TxID[1] = byte(j), byte(j>>8)^0xa5
+	}
+	in.PrevSats = 0
+	return in
 }
 
 func expandID(c IDCase) ref.Tx {
 	m := c.Tx
 	m.Out = make([]ref.Out, len(c.Tx.Out))
 	copy(m.Out, c.Tx.Out)
+	if c.RepIn > 0 && c.RepIn <= 1000 && len(c.Tx.In) > 0 {
+		m.In = append([]ref.In{}, c.Tx.In...)
+		for j := 0; j < c.RepIn; j++ {
+			m.In = append(m.In, repIn(c.Tx.In[len(c.Tx.In)-1], j))
+		}
+	}
 	for i := range m.Out {
 		if i < len(c.Pad) && c.Pad[i] > 0 {
 			s := make([]byte, 0, len(m.Out[i].Script)+c.Pad[i])
@@ -51,6 +72,11 @@ func expandID(c IDCase) ref.Tx {
 				s = append(s, byte(i*31+j))
 			}
 			m.Out[i].Script = s
+		}
+	}
+	if c.RepOut > 0 && c.RepOut <= 1000 && len(m.Out) > 0 {
+		for j := 0; j < c.RepOut; j++ {
+			m.Out = append(m.Out, m.Out[len(c.Tx.Out)-1])
 		}
 	}
 	return m
@@ -170,6 +196,14 @@ func checkID(ctx *pbt.Ctx, c IDCase) error {
 	}
 	ctx.Labelf("paid-enough(actual)=%v", ok)
 	ctx.Label("rel=" + c.Rel)
+	switch a, b := len(m.In) >= 253, len(m.Out) >= 253; {
+	case a && b:
+		ctx.Label("counts=both>=253")
+	case a:
+		ctx.Label("counts=inputs>=253")
+	case b:
+		ctx.Label("counts=outputs>=253")
+	}
 
 	// -- 3. estimates ------------------------------------------------------------
 	// Assertions about estimation are made when every input is either P2PKH-funded
@@ -421,6 +455,22 @@ func genIDCase(t *rapid.T) IDCase {
 		c.Tx.Out = append(c.Tx.Out, o)
 	}
 	c.Quote = genQuote(t)
+	// element counts around the point where the count prefix takes three bytes, independently
+	// for inputs and outputs
+	if rapid.IntRange(0, 24).Draw(t, "many") == 0 {
+		if nin > 0 && rapid.IntRange(0, 2).Draw(t, "many_in") > 0 {
+			c.RepIn = rapid.SampledFrom([]int{251, 252, 253, 254, 300}).Draw(t, "total_in") - nin
+		}
+		if nout > 0 && (c.RepIn == 0 || rapid.Bool().Draw(t, "many_out")) {
+			big := false
+			for i := range c.Pad {
+				big = big || c.Pad[i] > 2000
+			}
+			if !big {
+				c.RepOut = rapid.SampledFrom([]int{251, 252, 253, 254, 300}).Draw(t, "total_out") - nout
+			}
+		}
+	}
 
 	// amounts: aim the input total at the exact fee of the actual or the estimated size
 	m := expandID(c)
@@ -481,8 +531,8 @@ func genIDCase(t *rapid.T) IDCase {
 func TestIdentities(t *testing.T) {
 	pbt.Run(t, pbt.Sub[IDCase]{
 		Name: "identities", Quick: 200000, Thorough: 12000000,
-		Gen:   genIDCase,
-		Check: checkID,
+		Gen:      genIDCase,
+		Check:    checkID,
 		EnumDesc: "data/standard classification: one-output transactions whose locking script is empty, each of the 256 one-byte scripts, and each of the 65536 two-byte prefixes followed by 3 payload bytes (quick: every 2-byte prefix with first byte in {00,6a,4c,51,ff} or second byte 6a, plus all shorter scripts)",
 		Enum: func(tier string, yield func(IDCase)) {
 			q := ref.FeeQuote{Std: ref.FeeUnit{Sat: 3, Bytes: 2}, Data: ref.FeeUnit{Sat: 7, Bytes: 3}, StdRelay: ref.FeeUnit{Sat: 1, Bytes: 1}, DataRelay: ref.FeeUnit{Sat: 1, Bytes: 1}}
@@ -517,7 +567,31 @@ func TestIdentities(t *testing.T) {
 type SignCase struct {
 	Keys      []pbt.Hex `json:"keys"` // 32-byte secp256k1 private keys, one per input
 	Presigned []bool    `json:"presigned"`
-	Tx        ref.Tx    `json:"tx"` // inputs: txid/vout/seq/prev_sats (spent script derived from the key); outputs as given
+	Tx        ref.Tx    `json:"tx"`                // inputs: txid/vout/seq/prev_sats (spent script derived from the key); outputs as given
+	RepIn     int       `json:"rep_in,omitempty"`  // further copies of the last input (same key, own txid)
+	RepOut    int       `json:"rep_out,omitempty"` // further copies of the last output
+}
+
+func expandSign(c SignCase) SignCase {
+	if n := len(c.Tx.In); n > 0 && c.RepIn > 0 && c.RepIn <= 1000 && len(c.Keys) == n && len(c.Presigned) == n {
+		c.Tx.In = append([]ref.In{}, c.Tx.In...)
+		c.Keys = append([]pbt.Hex{}, c.Keys...)
+		c.Presigned = append([]bool{}, c.Presigned...)
+		for j := 0; j < c.RepIn; j++ {
+			in := repIn(c.Tx.In[n-1], j)
+			in.PrevSats = c.Tx.In[n-1].PrevSats
+			c.Tx.In = append(c.Tx.In, in)
+			c.Keys = append(c.Keys, c.Keys[n-1])
+			c.Presigned = append(c.Presigned, c.Presigned[n-1])
+		}
+	}
+	if n := len(c.Tx.Out); n > 0 && c.RepOut > 0 && c.RepOut <= 1000 {
+		c.Tx.Out = append([]ref.Out{}, c.Tx.Out...)
+		for j := 0; j < c.RepOut; j++ {
+			c.Tx.Out = append(c.Tx.Out, c.Tx.Out[n-1])
+		}
+	}
+	return c
 }
 
 func hash160(b []byte) []byte {
@@ -548,6 +622,7 @@ func validKey(k []byte) bool {
 }
 
 func checkSign(ctx *pbt.Ctx, c SignCase) error {
+	c = expandSign(c)
 	n := len(c.Tx.In)
 	if n == 0 || len(c.Keys) != n || len(c.Presigned) != n {
 		ctx.Discard("malformed case")
@@ -640,6 +715,9 @@ func checkSign(ctx *pbt.Ctx, c SignCase) error {
 	default:
 		ctx.Label("partially-signed")
 	}
+	if n >= 253 || len(c.Tx.Out) >= 253 {
+		ctx.Label("count-prefix-3-bytes")
+	}
 	ctx.NonTrivial()
 	kk := make([][]byte, 0, n)
 	for _, k := range c.Keys {
@@ -679,6 +757,14 @@ func genSignCase(t *rapid.T) SignCase {
 			s = gen.FillBytes(t, rapid.IntRange(0, 40).Draw(t, "slen"), "oscript")
 		}
 		c.Tx.Out = append(c.Tx.Out, ref.Out{Sats: rapid.Uint64Range(0, 100000).Draw(t, "osats"), Script: s})
+	}
+	if rapid.IntRange(0, 39).Draw(t, "many") == 0 {
+		if rapid.Bool().Draw(t, "many_in") {
+			c.RepIn = rapid.SampledFrom([]int{251, 252, 253, 254}).Draw(t, "total_in") - n
+		}
+		if nout > 0 && (c.RepIn == 0 || rapid.Bool().Draw(t, "many_out")) {
+			c.RepOut = rapid.SampledFrom([]int{251, 252, 253, 254}).Draw(t, "total_out") - nout
+		}
 	}
 	return c
 }
